@@ -445,6 +445,11 @@ fn graph_programs(rng: &mut Rng, n: usize) -> Vec<String> {
     v
 }
 
+pub fn render_only(out: &mut Out, tier: &str) {
+    render_cases(out, if tier == "thorough" { 4 } else { 3 });
+    render_long(out);
+}
+
 pub fn run(out: &mut Out, tier: &str, seed: u64, scratch: &str) {
     let mut rng = Rng::new(seed);
     let thorough = tier == "thorough";
